@@ -102,6 +102,8 @@ def svWrites (dump : String) : List (String × Int) :=
     | ["UP", a, t] => t.toInt?.map fun t => (a, t)
     | _ => none
 
+def laterThan (a b : Int) : Bool := decide (b < a)
+
 /-- `cleaner <retention> <interval> <init> <script>`: the real cleaner component ran the passes of the script, the fake clock
 advancing by the interval before each (`faulttick`: the server cleaner's scan failed, that pass removes no server).
 Model: after the init items, `CleanerComponent.cleanerPasses retention interval script` (`Model/CleanerComponent.lean`: per
@@ -139,7 +141,11 @@ def handle (args out : List String) : Verdict :=
   | [op, initS, clientS, _] =>
     match kv out "eff", kv out "calls", kv out "res", kv out "dump", modelRun {} (fun _ => 0) initS clientS ((kv out "eff").getD "-") with
     | some ieff, some icalls, some ires, some idump, some m =>
-      let (same, dinfo) := diffInfo m icalls ires idump
+      -- a raw repository call of a client (`call|update!…`: another node's write, planted as it is) does not go through the
+      -- harness's recording decorator: it is not in the implementation's call list
+      let rawClients : List Nat := (List.range m.specs.length).filter fun i => match m.specs[i]? with | some (USpec.raw _) => true | _ => false
+      let mcalls := ",".intercalate ((m.calls.splitOn ",").filter fun c => !(rawClients.any fun i => c.startsWith s!"{i}:"))
+      let (same, dinfo) := diffInfo { m with calls := if m.calls = "-" then "-" else (if mcalls = "" then "-" else mcalls) } icalls ires idump
       let results := ires.splitOn ";"
       let finalAddrs := svAddrs idump
       let (ok, why) : Bool × String :=
@@ -192,6 +198,22 @@ def handle (args out : List String) : Verdict :=
             let othersOk := (staleOthers a).all (fun x => !finalAddrs.contains x) && (freshOthers a).all finalAddrs.contains
             ((if r == "ok" then survived else true) && othersOk,
              s!"race:keepalive={r}:survives={survived}:others-as-expected={othersOk}")
+          | some (USpec.raw _) =>
+            -- another node's refresh, planted as a raw update: its refresh time is what that node's (lagging) clock said — a
+            -- few hundred nanoseconds after the cutoff.  If it committed (the server was still there), the server it refreshed
+            -- survives exactly when that time is after the cutoff, however small the margin
+            let r := results.getD 1 ""
+            if r.startsWith "ok:" then
+              let parts := (r.drop 3).toString.splitOn "/"
+              let a := parts.getD 0 ""
+              match ((parts.getD 4 "").toInt? : Option Int) with
+              | some (refreshed : Int) =>
+                let survived := finalAddrs.contains a
+                let must : Bool := laterThan refreshed cutoff
+                let othersOk := (staleOthers (some a)).all (fun x => !finalAddrs.contains x) && (freshOthers (some a)).all finalAddrs.contains
+                ((if must then survived else true) && othersOk, s!"race:raw-refresh={refreshed}:cutoff={cutoff}:survives={survived}:others-as-expected={othersOk}")
+              | none => (true, "")
+            else (true, "")
           | _ => (false, "race:unexpected-client")
       let fin := !(results.any fun r => r == "hung" || r.startsWith "panic") && !(ieff.endsWith "HUNG")
       verdict same (ok && fin) (dinfo ++ (cond (ok && fin) "" why))
